@@ -258,9 +258,9 @@ func exttreeSeq(c *hx.Ctx, r *hx.Rng, s treeSeq) {
 			}
 		case "burst":
 			n = 1 + r.Intn(int(bs-12)/12+20)
-			if step == 0 {
-				n = 1 + r.Intn(4)
-			}
+		}
+		if step == 0 && n > 4 {
+			n = 1 + r.Intn(4) // createRootExtentTree refuses more than four extents
 		}
 		var added []ext4.V04Extent
 		for i := 0; i < n; i++ {
@@ -393,6 +393,20 @@ func exttreeSeq(c *hx.Ctx, r *hx.Rng, s treeSeq) {
 				}
 				c.Case(id+"/f", "ext4tree.flat", "tree="+treeText(after))
 				c.Impl(id+"/f", "ext="+extStr(blocks), "nodes="+joinOr(tbs))
+			}
+			// the invariant the Lean history theorems assume and preserve (TreeInv): the library's own tree has it, and
+			// the Lean checker agrees with the engine's on it and on a damaged copy
+			if r0, s0, u0 := treeInv(after, bs); !(r0 && s0 && u0) {
+				c.Fail(id, "-", fmt.Sprintf("the tree on the device breaks the invariant (root=%v sorted=%v nodup=%v): %s", r0, s0, u0, short(treeText(after))), repro())
+				return
+			}
+			if c.Want(id+"/i") && (step%7 == 0 || nodes != len(beforeBlocks(before))) {
+				c.Case(id+"/i", "ext4tree.inv", fmt.Sprintf("bs=%d", bs), "tree="+treeText(after))
+				c.Impl(id+"/i", after.invImpl(bs)...)
+				dm, what := damage(after, lcgPick(uint64(step)*131+uint64(len(s.name))))
+				c.Case(id+"/id", "ext4tree.inv", fmt.Sprintf("bs=%d", bs), "tree="+treeText(dm))
+				c.Impl(id+"/id", dm.invImpl(bs)...)
+				c.Stat("exttree.inv.damaged." + what)
 			}
 			if int(meta) != nodes-len(beforeBlocks(before)) {
 				c.Fail(id, "-", fmt.Sprintf("extendExtentTree reports %d new tree blocks, the tree has %d more", meta, nodes-len(beforeBlocks(before))), repro())
